@@ -168,3 +168,37 @@ fn pull_piece_value(square: Square, piece: Piece) -> u64 {
 
     POSSIBLE_PULL_VALUES[piece_idx][square.index()]
 }
+
+/// Verification hooks (off by default): the Zobrist tables and the three private value lookups.
+#[cfg(feature = "verif_hooks")]
+pub mod verif {
+    use super::*;
+
+    pub fn zobrist_scalars() -> (u64, u64) {
+        (INITIAL, PLAYER_TO_MOVE)
+    }
+    pub fn zobrist_steps() -> Vec<u64> {
+        STEP_VALUES.to_vec()
+    }
+    pub fn zobrist_square_values() -> Vec<Vec<u64>> {
+        SQUARE_VALUES.iter().map(|r| r.to_vec()).collect()
+    }
+    pub fn zobrist_push_values() -> Vec<Vec<u64>> {
+        PUSH_VALUES.iter().map(|r| r.to_vec()).collect()
+    }
+    pub fn zobrist_pull_values() -> Vec<Vec<u64>> {
+        POSSIBLE_PULL_VALUES.iter().map(|r| r.to_vec()).collect()
+    }
+    pub fn zobrist_piece_value(square: Square, piece: Piece, is_p1: bool) -> u64 {
+        piece_value(square, piece, is_p1)
+    }
+    /// panics exactly where the engine does (pushed elephant)
+    pub fn zobrist_push_piece_value(square: Square, piece: Piece) -> u64 {
+        push_piece_value(square, piece)
+    }
+    /// panics exactly where the engine does (pulling rabbit)
+    pub fn zobrist_pull_piece_value(square: Square, piece: Piece) -> u64 {
+        pull_piece_value(square, piece)
+    }
+}
+
